@@ -51,6 +51,15 @@ func C05_reject_step() {
 	if frag {
 		rd.opCode = ws.OpCode(1 + vChoose("openop", 2))
 	}
+	// receive extensions installed on the reader (the normal set-up of an extended connection):
+	// none, an empty non-nil list, or one that passes every header through -- the verdict on the
+	// header is the same
+	switch vChoose("exts", 3) {
+	case 1:
+		rd.Extensions = []RecvExtension{}
+	case 2:
+		rd.Extensions = []RecvExtension{RecvExtensionFunc(func(h ws.Header) (ws.Header, error) { return h, nil })}
+	}
 	nint := 0
 	rd.OnIntermediate = func(h ws.Header, r io.Reader) error { nint++; return nil }
 	broken := vHeaderBroken(fin, rsv, op, masked, L, server, client, ext, frag)
